@@ -755,6 +755,16 @@ func (c *Conn) recv(ctx context.Context) error {
 		if _, ok := err.(net.Error); ok {
 			return err
 		}
+		// a body that was not read to its end leaves the connection in the middle of a frame:
+		// the connection is closed, which reports the error to the call that is put back here
+		if _, ok := err.(*frameBodyReadError); ok {
+			c.mu.Lock()
+			if !c.closed {
+				c.calls[head.stream] = call
+			}
+			c.mu.Unlock()
+			return err
+		}
 	}
 
 	// we either, return a response to the caller, the caller timedout, or the
